@@ -621,6 +621,39 @@ def rxn_cx_templates():
     return out
 
 
+def rxn_radical_templates():
+    """fixed (seed independent) reaction strings: every combination of empty / one / two molecules per role, CXSMILES radical indices pointing at
+    the first and last atom of every non-empty role (singly and in pairs across roles), without and with an f: group of two neighbouring
+    components of one role (neighbours: the grouping does not reorder molecules).  Marked atoms are organic-subset atoms (no radical guessing)."""
+    pool = {0: ['CC', 'NCC'], 1: ['CO', 'ClC'], 2: ['CCN', 'OC']}
+    out = []
+    for shape in itertools.product((0, 1, 2), repeat=3):
+        if not any(shape):
+            continue
+        roles = ['.'.join(pool[k][:n]) for k, n in enumerate(shape)]
+        smi = '>'.join(roles)
+        spans, off, comp = [], 0, 0
+        groups = []
+        for k, n in enumerate(shape):
+            if n:
+                na = sum(sum(1 for c in m if c.isupper()) for m in pool[k][:n])
+                spans.append((off, off + na - 1))
+                off += na
+                if n == 2:
+                    groups.append(f'{comp}.{comp + 1}')
+                comp += n
+        marks = sorted({i for sp in spans for i in sp})
+        idxs = [(i,) for i in marks] + [(a, b) for a, b in itertools.combinations(marks, 2) if not any(lo <= a <= hi and lo <= b <= hi for lo, hi in spans)]
+        for ix in idxs:
+            rad = '^1:' + ','.join(map(str, ix))
+            out.append(f'{smi} |{rad}|')
+            for g in groups:
+                out.append(f'{smi} |f:{g},{rad}|')
+                out.append(f'{smi} |{rad},f:{g}|')
+    out += ['CC>CO>C[O] |^1:5|', 'CC>C[O]>CO |^1:3|', 'OO>[Fe]>[OH].[OH] |^1:3,4|', 'C[CH2]>O>CC |^1:1|', '[CH3]>>C |^1:0|', 'C>[O]>N |^1:1|', 'C>N>[O] |^1:2|']
+    return out
+
+
 def _merge(run, results, fam, odd, stats, note_keys=True):
     for n, keys, st, f, o, samples in results:
         run.case(n)
@@ -696,6 +729,10 @@ def bounded(run):
     _merge(run, pmap(_w_strings, [(c, True, False) for c in _chunks(tpl, 50)]), fam, odd, stats)
     run.bound(f'templates: {len(tpl)} stereo-centre spellings (first atom / preceded / later component / branch / ring closure / reaction role), '
               f'directional-bond spellings, reaction and CXSMILES cases')
+    rr = rxn_radical_templates()
+    _merge(run, pmap(_w_strings, [(c, False, False) for c in _chunks(rr, 60)]), fam, odd, stats)
+    run.bound(f'reaction radicals: {len(rr)} fixed reaction strings - every empty/one/two-molecule shape of the three roles x CXSMILES radical indices on the '
+              f'first and last atom of every role (single and cross-role pairs) x without / with an f: group')
     _merge(run, pmap(_w_strings, [(c, True, False) for c in _chunks(ANCHORS, 8)]), fam, odd, stats)
     run.bound(f'anchors: {len(ANCHORS)} fixed inputs (shortest witnesses of every family reproduced on the pinned tree, plus the inputs of repaired defects)')
     tm['generated'] = round(time.time() - t0, 1)
